@@ -126,6 +126,39 @@ def c_docclass(rng, W):
                 '%s "a $x$ \\begin{proof}\nx\n\\end{proof}\n' % a])}
 
 
+def c_name_zoo(rng, W):
+    # names that some class or package module defines: whatever such a
+    # module registers for one call must be gone for the next, so a later
+    # document that loads nothing sees all of them as unknown macros
+    w = [W.word() for _ in range(4)]
+    zoo = ('\\addsec{%s} \\addchap{%s} \\addpart{P} \\minisec{M} \\chapter{C}\n'
+           '\\subject{S} \\publishers{U} \\frontmatter \\KOMAoptions{x} '
+           '\\cref{l} \\Cref{l} \\gls{g} \\SI{3}{m} \\enquote{%s}\n'
+           '\\textcite{k} \\parencite{k} \\autoref{l} \\url{u} \\href{u}{h} '
+           '\\textcolor{red}{c} \\includegraphics{f} \\text{t} \\xspace %s\n'
+           '\\subsubsection{X} \\paragraph{Y} \\captionof{figure}{Z} \\eqref{e}.\n'
+           % tuple(w))
+    pol = rng.choice([
+        ('\\documentclass{%s}\nText.\n' % rng.choice(
+            ['scrartcl', 'scrbook', 'scrreprt', 'book', 'report', 'article']), {}),
+        ('Text.\n', {'dcls': rng.choice(['scrartcl', 'scrbook', 'scrreprt',
+                                          'book', 'report'])}),
+        ('\\usepackage{%s}\nText.\n' % rng.choice(
+            ['cleveref', 'glossaries', 'biblatex', 'hyperref', 'xcolor',
+             'graphicx', 'amsmath', 'xspace', 'geometry', 'babel']), {'pack': ''}),
+        ('Text.\n', {'pack': '*'}),
+    ])
+    o = dict(pol[1])
+    o.setdefault('pack', '')
+    # the later document may load a module of its own (tables shared between
+    # modules are looked at only then)
+    zoo = rng.choice(['', '', '\\documentclass{article}\n',
+                      '\\usepackage{geometry}\n',
+                      '\\newtheorem{thmz}{Satz}\n']) + zoo
+    return {'name': 'module_names', 'pol': pol[0], 'pol_opts': o,
+            'probe': zoo, 'probe_opts': {'pack': '', 'unkn': rng.random() < 0.5}}
+
+
 def c_language(rng, W):
     a, b = W.word(), W.word()
     pol = rng.choice([
@@ -385,7 +418,7 @@ def c_recovery(rng, W):
 
 
 CARRIERS = [c_newcommand, c_newcommand, c_renewcommand, c_newtheorem, c_package,
-            c_package, c_cleveref, c_docclass, c_language, c_language,
+            c_package, c_cleveref, c_docclass, c_name_zoo, c_language, c_language,
             c_lang_option, c_ienc, c_xspace, c_package_zoo, c_shared_options,
             c_file_rewritten, c_file_rewritten, c_babel_table, c_babel_table, c_rotation, c_rotation, c_items, c_glossary,
             c_glossary, c_flows, c_unknowns, c_option_flag, c_option_flag,
